@@ -595,7 +595,7 @@ class SymArray:
     def nonzero(self):
         if self.is_concrete():
             return self.to_numpy().nonzero()
-        raise Unsupported("nonzero() of a symbolic array")
+        return where(self)
 
     def to_xarray(self):  # pragma: no cover - guard
         raise Unsupported("SymArray.to_xarray")
@@ -1315,6 +1315,28 @@ def np_any(a, axis=None, **kw):
     if isinstance(a, (bool, _np.bool_, SymBool)):
         return a
     return _reduce(a, "any", axis)
+
+
+def nonzero(a):
+    """Indices of the non-zero elements: forks on every symbolic element (like the index form of where)."""
+    return where(asarray(a))
+
+
+def flatnonzero(a):
+    return nonzero(asarray(a).reshape(-1))[0]
+
+
+def argwhere(a):
+    return _np.stack(nonzero(a), axis=-1) if asarray(a).ndim else _np.zeros((0, 0), dtype=int)
+
+
+def count_nonzero(a, axis=None, **kw):
+    a = asarray(a)
+    if a.is_concrete():
+        return _np.count_nonzero(a.to_numpy(), axis=axis)
+    if axis is not None:
+        raise Unsupported("count_nonzero along an axis of a symbolic array")
+    return builtins.sum(1 for e in a.elems() if builtins.bool(_truthy(e)))
 
 
 def where(c, a=None, b=None):
